@@ -346,13 +346,14 @@ Proof. exists 1%nat, 1%nat, []. split; vm_compute; reflexivity. Qed.
 (* ================================================================== row-building constructors *)
 Section RowsProofs.
 Variables mgr rsz crewsz : Z.
-Variable cols : nat.
+Variable colsf : Z -> nat.
 Variable haskey : bool.
 Variable linkfail : bool.
-Notation w := (width cols haskey).
+Variable stride : Z.
+Hypothesis Hstride : 0 <= stride.
 
-Definition rblks (rows : list Z) : list (Z * (Z * Z)) := map (fun r => (r, (mgr, rsz))) rows.
-Definition in_rows (rows : list Z) (l : loc) : bool := existsb (fun r => inrng r 0 w l) rows.
+Definition rblks (rows : list (Z * nat)) : list (Z * (Z * Z)) := map (fun rw => (fst rw, (mgr, rsz))) rows.
+Definition in_rows (rows : list (Z * nat)) (l : loc) : bool := existsb (fun rw => inrng (fst rw) 0 (snd rw) l) rows.
 
 (* the fixed part of the world: untouched cells f (false on every region >= nb0), blocks bs, endless source rows sr / keys kr *)
 Variable f : loc -> bool.
@@ -362,31 +363,31 @@ Hypothesis Hcl : forall l, nb0 <= fst l -> f l = false.
 Hypothesis Hsr : forall x, 0 <= x -> f (sr, x) = true.
 Hypothesis Hkr : forall x, 0 <= x -> f (kr, x) = true.
 
-Definition rows_inv (rows : list Z) (s : rstate) (nb : Z) : Prop :=
+Definition rows_inv (rows : list (Z * nat)) (s : rstate) (nb : Z) : Prop :=
   st_is s (fun l => in_rows rows l || f l) (rblks rows ++ bs) nb /\ dlist (rblks rows ++ bs) nb /\
-  Forall (fun r => nb0 <= r) rows /\ nb0 <= nb.
+  Forall (fun rw => nb0 <= fst rw) rows /\ nb0 <= nb.
 
-Lemma in_rows_other rows l : (forall r, In r rows -> r <> fst l) -> in_rows rows l = false.
+Lemma in_rows_other rows l : (forall rw, In rw rows -> fst rw <> fst l) -> in_rows rows l = false.
 Proof.
   induction rows as [|r rows IH]; intros Hn; [reflexivity|]. simpl.
-  rewrite (inrng_other_region r 0 w l) by (intros E; apply (Hn r (or_introl eq_refl)); congruence).
+  rewrite (inrng_other_region (fst r) 0 (snd r) l) by (intros E; apply (Hn r (or_introl eq_refl)); congruence).
   apply IH. intros r' Hin. apply Hn. right. exact Hin.
 Qed.
 
-Lemma rows_below rows s nb : rows_inv rows s nb -> forall r, In r rows -> r < nb.
+Lemma rows_below rows s nb : rows_inv rows s nb -> forall rw, In rw rows -> fst rw < nb.
 Proof.
-  intros (_ & D & _) r Hin. apply (dlist_fresh _ nb D r (mgr, rsz)). apply in_or_app. left.
-  unfold rblks. apply in_map_iff. exists r. split; [reflexivity|exact Hin].
+  intros (_ & D & _) rw Hin. apply (dlist_fresh _ nb D (fst rw) (mgr, rsz)). apply in_or_app. left.
+  unfold rblks. apply in_map_iff. exists rw. split; [reflexivity|exact Hin].
 Qed.
 
 (* a region that is not one of the rows and not below nb0 is untouched *)
 Lemma region_clear rows s nb l : rows_inv rows s nb -> nb <= fst l -> in_rows rows l || f l = false.
 Proof.
   intros I Hl. pose proof I as (_ & _ & _ & Hn). rewrite (Hcl l) by lia. rewrite orb_false_r.
-  apply in_rows_other. intros r Hin. pose proof (rows_below rows s nb I r Hin). lia.
+  apply in_rows_other. intros rw Hin. pose proof (rows_below rows s nb I rw Hin). lia.
 Qed.
 
-Lemma import_row_post sb s f' bs' nb :
+Lemma import_row_post cols sb s f' bs' nb :
   st_is s f' bs' nb -> dlist bs' nb -> (forall l, fst l = nb -> f' l = false) ->
   (forall k, 0 <= k < Z.of_nat cols -> f' (sr, sb + 0 + k) = true) ->
   post (import_row mgr rsz cols sr sb) s
@@ -419,7 +420,7 @@ Proof.
         eapply st_is_ext; [|exact H4]. apply undo_dst. intros k Hk. apply Hc. reflexivity.
 Qed.
 
-(* dropping a row that occupies [m] cells (m = cols before it is linked, width afterwards) *)
+(* dropping a row that occupies [m] cells *)
 Lemma drop_post m (dropper : Z -> M unit) row s f' bs' nb :
   (dropper row = (p_touch_blk row ;;; om_destroy_n row 0 m ;;; p_dealloc mgr row rsz)) ->
   st_is s (fun l => inrng row 0 m l || f' l) ((row, (mgr, rsz)) :: bs') nb -> dlist ((row, (mgr, rsz)) :: bs') nb ->
@@ -439,14 +440,14 @@ Proof.
   eapply st_is_ext; [|exact H3]. apply undo_dst. intros k Hk. apply Hc. reflexivity.
 Qed.
 
-Lemma link_row_post row i s f' bs' nb :
+Lemma link_row_post cols row i s f' bs' nb :
   0 <= i -> st_is s (fun l => inrng row 0 cols l || f' l) bs' nb ->
   (forall l, fst l = row -> f' l = false) -> f' (kr, i) = true ->
-  post (link_row cols haskey linkfail row kr i) s
-       (fun _ s' => st_is s' (fun l => inrng row 0 w l || f' l) bs' nb)
+  post (link_row haskey linkfail cols row kr i) s
+       (fun _ s' => st_is s' (fun l => inrng row 0 (cols + keyw haskey) l || f' l) bs' nb)
        (fun s' => st_is s' (fun l => inrng row 0 cols l || f' l) bs' nb).
 Proof.
-  intros Hi H Hc Hk. unfold link_row, width. apply post_bind.
+  intros Hi H Hc Hk. unfold link_row, keyw. apply post_bind.
   assert (F : post (if linkfail then fallible else ret tt) s
                 (fun _ s' => st_is s' (fun l => inrng row 0 cols l || f' l) bs' nb)
                 (fun s' => st_is s' (fun l => inrng row 0 cols l || f' l) bs' nb)).
@@ -466,7 +467,7 @@ Qed.
 
 Lemma fill_loop_spec : forall n i rows s nb,
   0 <= i -> rows_inv rows s nb ->
-  match fill_loop mgr rsz cols haskey linkfail sr kr i n rows s with
+  match fill_loop mgr rsz colsf haskey linkfail stride sr kr i n rows s with
   | ((_, Stuck), _) => False
   | ((rows', _), s') => exists nb', rows_inv rows' s' nb'
   end.
@@ -476,50 +477,50 @@ Proof.
   - pose proof I as (H & D & Hge & Hn).
     assert (Hc : forall l, fst l = nb -> in_rows rows l || f l = false).
     { intros l El. apply (region_clear rows s nb l I). lia. }
-    assert (Hs : forall k, 0 <= k < Z.of_nat cols -> in_rows rows (sr, i * Z.of_nat cols + 0 + k) || f (sr, i * Z.of_nat cols + 0 + k) = true).
+    assert (Hs : forall k, 0 <= k < Z.of_nat (colsf i) -> in_rows rows (sr, i * stride + 0 + k) || f (sr, i * stride + 0 + k) = true).
     { intros k Hk. rewrite Hsr by nia. apply orb_true_r. }
-    pose proof (import_row_post (i * Z.of_nat cols) s _ _ nb H D Hc Hs) as P. unfold post in P.
-    destruct (import_row mgr rsz cols sr (i * Z.of_nat cols) s) as [[row| |] s1]; [| |contradiction].
+    pose proof (import_row_post (colsf i) (i * stride) s _ _ nb H D Hc Hs) as P. unfold post in P.
+    destruct (import_row mgr rsz (colsf i) sr (i * stride) s) as [[row| |] s1]; [| |contradiction].
     2:{ destruct P as (nb' & Hle & H'). exists nb'. split; [exact H'|]. split; [apply (dlist_mono _ nb nb'); [lia|exact D]|].
         split; [exact Hge|lia]. }
     destruct P as [Er H1]. subst row.
     assert (D1 : dlist ((nb, (mgr, rsz)) :: rblks rows ++ bs) (nb + 1)) by (apply dlist_cons; exact D).
-    assert (L : post (catch_rethrow (link_row cols haskey linkfail nb kr i) (drop_unlinked mgr rsz cols nb)) s1
-                  (fun _ s' => st_is s' (fun l => inrng nb 0 w l || (in_rows rows l || f l))
+    assert (L : post (catch_rethrow (link_row haskey linkfail (colsf i) nb kr i) (drop_unlinked mgr rsz (colsf i) nb)) s1
+                  (fun _ s' => st_is s' (fun l => inrng nb 0 (colsf i + keyw haskey) l || (in_rows rows l || f l))
                                      ((nb, (mgr, rsz)) :: rblks rows ++ bs) (nb + 1))
                   (fun s' => st_is s' (fun l => in_rows rows l || f l) (rblks rows ++ bs) (nb + 1))).
     { apply post_catch.
-      eapply post_conseq; [apply (link_row_post nb i s1 _ _ _ Hi H1 Hc)| |].
+      eapply post_conseq; [apply (link_row_post (colsf i) nb i s1 _ _ _ Hi H1 Hc)| |].
       - rewrite Hkr by lia. apply orb_true_r.
       - auto.
-      - intros s2 H2. eapply post_conseq; [apply (drop_post cols (drop_unlinked mgr rsz cols) nb s2 _ _ _ eq_refl H2 D1 Hc)|auto|intros ? []]. }
+      - intros s2 H2. eapply post_conseq; [apply (drop_post (colsf i) (drop_unlinked mgr rsz (colsf i)) nb s2 _ _ _ eq_refl H2 D1 Hc)|auto|intros ? []]. }
     unfold post in L.
-    destruct (catch_rethrow (link_row cols haskey linkfail nb kr i) (drop_unlinked mgr rsz cols nb) s1) as [[u| |] s2]; [| |contradiction].
-    + assert (I2 : rows_inv (nb :: rows) s2 (nb + 1)).
-      { split; [|split; [exact D1|split; [constructor; [lia|exact Hge]|lia]]].
+    destruct (catch_rethrow (link_row haskey linkfail (colsf i) nb kr i) (drop_unlinked mgr rsz (colsf i) nb) s1) as [[u| |] s2]; [| |contradiction].
+    + assert (I2 : rows_inv ((nb, (colsf i + keyw haskey)%nat) :: rows) s2 (nb + 1)).
+      { split; [|split; [exact D1|split; [constructor; [simpl; lia|exact Hge]|lia]]].
         eapply st_is_ext; [|exact L]. intros l. simpl. apply orb_assoc. }
-      apply (IH (i + 1) (nb :: rows) s2 (nb + 1)); [lia|exact I2].
+      apply (IH (i + 1) ((nb, (colsf i + keyw haskey)%nat) :: rows) s2 (nb + 1)); [lia|exact I2].
     + exists (nb + 1). split; [exact L|]. split; [apply (dlist_mono _ nb (nb + 1)); [lia|exact D]|]. split; [exact Hge|lia].
 Qed.
 
 Lemma drop_rows_post : forall rows s nb,
   rows_inv rows s nb ->
-  post (drop_rows mgr rsz cols haskey rows) s (fun _ s' => rows_inv [] s' nb) (fun _ => False).
+  post (drop_rows mgr rsz rows) s (fun _ s' => rows_inv [] s' nb) (fun _ => False).
 Proof.
-  induction rows as [|r rows IH]; intros s nb I; simpl.
+  induction rows as [|[r w] rows IH]; intros s nb I; simpl.
   - apply post_ret. exact I.
   - pose proof I as (H & D & Hge & Hn). apply post_bind.
     assert (Hr : nb0 <= r) by (inversion Hge; assumption).
     assert (Dr : dlist (rblks rows ++ bs) r) by (destruct D as [_ ?]; assumption).
     assert (Hc : forall l, fst l = r -> in_rows rows l || f l = false).
     { intros l El. rewrite (Hcl l) by lia. rewrite orb_false_r. apply in_rows_other. intros r' Hin.
-      assert (r' < r). { apply (dlist_fresh _ r Dr r' (mgr, rsz)). apply in_or_app. left. unfold rblks.
-                         apply in_map_iff. exists r'. split; [reflexivity|exact Hin]. }
+      assert (fst r' < r). { apply (dlist_fresh _ r Dr (fst r') (mgr, rsz)). apply in_or_app. left. unfold rblks.
+                             apply in_map_iff. exists r'. split; [reflexivity|exact Hin]. }
       lia. }
     assert (H' : st_is s (fun l => inrng r 0 w l || (in_rows rows l || f l)) ((r, (mgr, rsz)) :: rblks rows ++ bs) nb).
     { eapply st_is_ext; [|exact H]. intros l. simpl. symmetry. apply orb_assoc. }
-    eapply post_conseq; [apply (drop_post w (drop_row mgr rsz cols haskey) r s _ _ _ eq_refl H' D Hc)| |auto].
-    intros u s1 H1. apply (IH s1 nb). split; [exact H1|]. split; [apply (dlist_mono _ r nb); [destruct D; lia|exact Dr]|].
+    eapply post_conseq; [apply (drop_post w (fun b => p_touch_blk b ;;; om_destroy_n b 0 w ;;; p_dealloc mgr b rsz) r s _ _ _ eq_refl H' D Hc)| |auto].
+    intros u s1 H1. apply (IH s1 nb). split; [exact H1|]. split; [apply (dlist_mono _ r nb); [destruct D as [Hb _]; simpl in Hb; lia|exact Dr]|].
     split; [inversion Hge; assumption|exact Hn].
 Qed.
 
@@ -529,31 +530,31 @@ Proof. intros H D Hn. split; [exact H|]. split; [exact D|]. split; [constructor|
 (* pvFill (as fixed in 91ea186) + ~DataTable: every schedule, every row count: never Stuck, rows released exactly once *)
 Lemma dt_body_post n s nb :
   rows_inv [] s nb ->
-  post (dt_body mgr rsz cols haskey linkfail true sr kr n) s (fun _ s' => exists nb', st_is s' f bs nb') (fun s' => exists nb', st_is s' f bs nb').
+  post (dt_body mgr rsz colsf haskey linkfail stride true sr kr n) s (fun _ s' => exists nb', st_is s' f bs nb') (fun s' => exists nb', st_is s' f bs nb').
 Proof.
   intros I. unfold dt_body, post.
   pose proof (fill_loop_spec n 0 [] s nb (Z.le_refl 0) I) as F.
-  destruct (fill_loop mgr rsz cols haskey linkfail sr kr 0 n [] s) as [[rows o] s1].
+  destruct (fill_loop mgr rsz colsf haskey linkfail stride sr kr 0 n [] s) as [[rows o] s1].
   destruct o as [u| |]; [| |contradiction]; destruct F as [nb1 I1].
   - pose proof (drop_rows_post rows s1 nb1 I1) as Dp. unfold post in Dp.
-    destruct (drop_rows mgr rsz cols haskey rows s1) as [[u'| |] s3]; try contradiction.
+    destruct (drop_rows mgr rsz rows s1) as [[u'| |] s3]; try contradiction.
     exists nb1. destruct Dp as (A & _). exact A.
   - pose proof (drop_rows_post rows s1 nb1 I1) as Dp. unfold post in Dp.
-    destruct (drop_rows mgr rsz cols haskey rows s1) as [[u'| |] s2]; try contradiction.
+    destruct (drop_rows mgr rsz rows s1) as [[u'| |] s2]; try contradiction.
     simpl. exists nb1. destruct Dp as (A & _). exact A.
 Qed.
 
 (* HashMultiMap body + catch + (guarded) destructor part, the value crew being the newest block of the base *)
 Lemma hmm_body_post n s nb vcrew bs1 :
   bs = (vcrew, (mgr, crewsz)) :: bs1 -> rows_inv [] s nb ->
-  post (hmm_body mgr rsz crewsz cols haskey linkfail true vcrew sr kr n) s
+  post (hmm_body mgr rsz crewsz colsf haskey linkfail stride true vcrew sr kr n) s
        (fun _ s' => exists nb', st_is s' f bs1 nb') (fun s' => exists nb', st_is s' f bs1 nb').
 Proof.
   intros Eb I. unfold hmm_body, post.
   pose proof (fill_loop_spec n 0 [] s nb (Z.le_refl 0) I) as F.
-  destruct (fill_loop mgr rsz cols haskey linkfail sr kr 0 n [] s) as [[rows o] s1].
+  destruct (fill_loop mgr rsz colsf haskey linkfail stride sr kr 0 n [] s) as [[rows o] s1].
   assert (Rel : forall s1' nb1, rows_inv rows s1' nb1 ->
-            post (drop_rows mgr rsz cols haskey rows ;;; p_dealloc mgr vcrew crewsz) s1'
+            post (drop_rows mgr rsz rows ;;; p_dealloc mgr vcrew crewsz) s1'
                  (fun _ s' => st_is s' f bs1 nb1) (fun _ => False)).
   { intros s1' nb1 I1. apply post_bind.
     eapply post_conseq; [apply (drop_rows_post rows s1' nb1 I1)| |auto].
@@ -563,10 +564,10 @@ Proof.
     - intros u2 s3 H3. rewrite (remove_head vcrew (mgr, crewsz) bs1 nb1 Dd) in H3. exact H3. }
   destruct o as [u| |]; [| |contradiction]; destruct F as [nb1 I1].
   - specialize (Rel s1 nb1 I1). unfold post in Rel.
-    destruct ((drop_rows mgr rsz cols haskey rows;;; p_dealloc mgr vcrew crewsz) s1) as [[u'| |] s3]; try contradiction.
+    destruct ((drop_rows mgr rsz rows;;; p_dealloc mgr vcrew crewsz) s1) as [[u'| |] s3]; try contradiction.
     exists nb1. exact Rel.
   - specialize (Rel s1 nb1 I1). unfold post in Rel.
-    destruct ((drop_rows mgr rsz cols haskey rows;;; p_dealloc mgr vcrew crewsz) s1) as [[u'| |] s2]; try contradiction.
+    destruct ((drop_rows mgr rsz rows;;; p_dealloc mgr vcrew crewsz) s1) as [[u'| |] s2]; try contradiction.
     simpl. exists nb1. exact Rel.
 Qed.
 
@@ -581,9 +582,11 @@ Qed.
 
 Section RowCtors.
 Variables mgr rsz crewsz : Z.
-Variable cols : nat.
+Variable colsf : Z -> nat.
 Variable haskey : bool.
 Variable linkfail : bool.
+Variable stride : Z.
+Hypothesis Hstride : 0 <= stride.
 
 (* a world whose regions at and above the next block id are untouched and that has endless source rows / keys *)
 Definition rows_world (s : rstate) (f : loc -> bool) (bs : list (Z * (Z * Z))) (sr kr : Z) : Prop :=
@@ -594,7 +597,7 @@ Definition rows_world (s : rstate) (f : loc -> bool) (bs : list (Z * (Z * Z))) (
    number of rows the machine is never Stuck and ends exactly where it started *)
 Theorem dt_copy_then_destroy_post sr kr n s f bs :
   rows_world s f bs sr kr ->
-  post (dt_copy_then_destroy mgr rsz crewsz cols haskey linkfail true sr kr n) s
+  post (dt_copy_then_destroy mgr rsz crewsz colsf haskey linkfail stride true sr kr n) s
        (fun _ s' => st_is s' f bs (nextb s')) (fun s' => st_is s' f bs (nextb s')).
 Proof.
   intros (H & D & Hcl & Hsr & Hkr). unfold dt_copy_then_destroy. set (nb := nextb s) in *. apply post_bind.
@@ -611,7 +614,7 @@ Proof.
   apply post_finally.
   assert (Hcl' : forall l, nb + 1 <= fst l -> f l = false) by (intros l Hl; apply Hcl; lia).
   eapply post_conseq;
-    [apply (dt_body_post mgr rsz cols haskey linkfail f ((nb, (mgr, crewsz)) :: bs) (nb + 1) sr kr Hcl' Hsr Hkr n s0 (nb + 1));
+    [apply (dt_body_post mgr rsz colsf haskey linkfail stride Hstride f ((nb, (mgr, crewsz)) :: bs) (nb + 1) sr kr Hcl' Hsr Hkr n s0 (nb + 1));
      apply rows_inv_nil; [exact S0|exact D0|lia]| |].
   - intros u s2 [nb2 H2]. apply (Rel s2 nb2 H2).
   - intros s2 [nb2 H2]. apply (Rel s2 nb2 H2).
@@ -621,7 +624,7 @@ Qed.
    the catch block { pvClearValueArrays(); mValueCrew.Destroy(); } and the destructor with its IsNull guard *)
 Theorem hmm_ctor_then_destroy_post sr kr n s f bs :
   rows_world s f bs sr kr ->
-  post (hmm_ctor_then_destroy mgr rsz crewsz cols haskey linkfail true sr kr n) s
+  post (hmm_ctor_then_destroy mgr rsz crewsz colsf haskey linkfail stride true sr kr n) s
        (fun _ s' => st_is s' f bs (nextb s')) (fun s' => st_is s' f bs (nextb s')).
 Proof.
   intros (H & D & Hcl & Hsr & Hkr). unfold hmm_ctor_then_destroy. set (nb := nextb s) in *. apply post_bind.
@@ -642,7 +645,7 @@ Proof.
   assert (D1 : dlist ((nb + 1, (mgr, crewsz)) :: (nb, (mgr, crewsz)) :: bs) (nb + 1 + 1)) by (apply dlist_cons; exact D0).
   assert (Hcl' : forall l, nb + 1 + 1 <= fst l -> f l = false) by (intros l Hl; apply Hcl; lia).
   eapply post_conseq;
-    [apply (hmm_body_post mgr rsz crewsz cols haskey linkfail f ((nb + 1, (mgr, crewsz)) :: (nb, (mgr, crewsz)) :: bs) (nb + 1 + 1) sr kr Hcl' Hsr Hkr n s1 (nb + 1 + 1) (nb + 1) _ eq_refl);
+    [apply (hmm_body_post mgr rsz crewsz colsf haskey linkfail stride Hstride f ((nb + 1, (mgr, crewsz)) :: (nb, (mgr, crewsz)) :: bs) (nb + 1 + 1) sr kr Hcl' Hsr Hkr n s1 (nb + 1 + 1) (nb + 1) _ eq_refl);
      apply rows_inv_nil; [exact S1|exact D1|lia]| |].
   - intros u s2 [nb2 H2]. apply (Rel s2 nb2 H2).
   - intros s2 [nb2 H2]. apply (Rel s2 nb2 H2).
@@ -668,20 +671,22 @@ Qed.
 
 Definition back_to_start (s' : rstate) : Prop := blocks s' = [] /\ forall l, occ (cells s' l) = rows_init_occ l.
 
-Theorem dt_copy_any_schedule mgr rsz crewsz cols n sch :
-  post (dt_copy_then_destroy mgr rsz crewsz cols false true true (-1) (-2) n) (rows_init sch)
+Theorem dt_copy_any_schedule mgr rsz crewsz colsf stride n sch :
+  0 <= stride ->
+  post (dt_copy_then_destroy mgr rsz crewsz colsf false true stride true (-1) (-2) n) (rows_init sch)
        (fun _ s' => back_to_start s') (fun s' => back_to_start s').
 Proof.
-  eapply post_conseq; [apply (dt_copy_then_destroy_post mgr rsz crewsz cols false true (-1) (-2) n _ _ _ (rows_init_world sch))| |].
+  intros Hst. eapply post_conseq; [apply (dt_copy_then_destroy_post mgr rsz crewsz colsf false true stride Hst (-1) (-2) n _ _ _ (rows_init_world sch))| |].
   - intros u s' (A & B & _). split; [exact B|exact A].
   - intros s' (A & B & _). split; [exact B|exact A].
 Qed.
 
-Theorem hmm_ctor_any_schedule mgr rsz crewsz cols n sch :
-  post (hmm_ctor_then_destroy mgr rsz crewsz cols true true true (-1) (-2) n) (rows_init sch)
+Theorem hmm_ctor_any_schedule mgr rsz crewsz colsf stride n sch :
+  0 <= stride ->
+  post (hmm_ctor_then_destroy mgr rsz crewsz colsf true true stride true (-1) (-2) n) (rows_init sch)
        (fun _ s' => back_to_start s') (fun s' => back_to_start s').
 Proof.
-  eapply post_conseq; [apply (hmm_ctor_then_destroy_post mgr rsz crewsz cols true true (-1) (-2) n _ _ _ (rows_init_world sch))| |].
+  intros Hst. eapply post_conseq; [apply (hmm_ctor_then_destroy_post mgr rsz crewsz colsf true true stride Hst (-1) (-2) n _ _ _ (rows_init_world sch))| |].
   - intros u s' (A & B & _). split; [exact B|exact A].
   - intros s' (A & B & _). split; [exact B|exact A].
 Qed.
@@ -689,14 +694,14 @@ Qed.
 (* the shapes the fixes removed / the guard prevents: 2 rows built, the 3rd fails -> the destructor releases the rows again *)
 Theorem dt_fill_double_destroy_refuted :
   exists (n : nat) (sch : list bool),
-    is_stuck (dt_copy_then_destroy 1 40 24 2 false true false (-1) (-2) n (rows_init sch)) = true /\
-    is_stuck (dt_copy_then_destroy 1 40 24 2 false true true (-1) (-2) n (rows_init sch)) = false.
+    is_stuck (dt_copy_then_destroy 1 40 24 (fun _ => 2%nat) false true 2 false (-1) (-2) n (rows_init sch)) = true /\
+    is_stuck (dt_copy_then_destroy 1 40 24 (fun _ => 2%nat) false true 2 true (-1) (-2) n (rows_init sch)) = false.
 Proof. exists 3%nat, [false; false; false; false; false; false; false; false; false; true]. split; vm_compute; reflexivity. Qed.
 
 Theorem hmm_dtor_without_guard_refuted :
   exists (n : nat) (sch : list bool),
-    is_stuck (hmm_ctor_then_destroy 1 40 24 2 true true false (-1) (-2) n (rows_init sch)) = true /\
-    is_stuck (hmm_ctor_then_destroy 1 40 24 2 true true true (-1) (-2) n (rows_init sch)) = false.
+    is_stuck (hmm_ctor_then_destroy 1 40 24 (fun i => Z.to_nat (1 + i)) true true 8 false (-1) (-2) n (rows_init sch)) = true /\
+    is_stuck (hmm_ctor_then_destroy 1 40 24 (fun i => Z.to_nat (1 + i)) true true 8 true (-1) (-2) n (rows_init sch)) = false.
 Proof. exists 3%nat, [false; false; false; false; false; false; false; false; false; false; true]. split; vm_compute; reflexivity. Qed.
 
 (* ================================================================== MemPool buffers across MergeFrom *)
@@ -775,138 +780,3 @@ Theorem pools_merge_orphans_refuted :
     (let '(_, s') := pools_scn 1 114 false a b (init_state (-1) 0 sch) in blocks s' <> []) /\
     (let '(_, s') := pools_scn 1 114 true a b (init_state (-1) 0 sch) in blocks s' = []).
 Proof. exists 2%nat, 3%nat, []. split; vm_compute; [discriminate|reflexivity]. Qed.
-
-(* ================================================================== TreeSet::pvCopy, two-level tree *)
-Section TreeCopy2Proofs.
-Variables mgr nodesz parsz crewsz : Z.
-Variables rootitems leafitems : nat.
-
-(* pvCopy of a root with nch leaf children: success = root and all children built; exception = nothing left *)
-Lemma pv_copy2_post srr src nch s f L nb :
-  st_is s f L nb -> dlist L nb -> (forall l, nb <= fst l -> f l = false) ->
-  (forall x, 0 <= x -> f (srr, x) = true) -> (forall x, 0 <= x -> f (src, x) = true) ->
-  post (pv_copy2 mgr nodesz rootitems leafitems srr src nch) s
-       (fun rk s' => fst rk = nb /\ exists nb',
-            rows_inv mgr nodesz leafitems false (fun l => inrng nb 0 rootitems l || f l) ((nb, (mgr, nodesz)) :: L) (nb + 1)
-                     (snd rk) s' nb')
-       (fun s' => exists nb', st_is s' f L nb').
-Proof.
-  intros H D Hcl Hsr Hsc. unfold pv_copy2, post.
-  assert (Hc : forall l, fst l = nb -> f l = false) by (intros l E; apply Hcl; lia).
-  assert (Hs : forall k, 0 <= k < Z.of_nat rootitems -> f (srr, 0 + 0 + k) = true) by (intros k Hk; apply Hsr; lia).
-  pose proof (import_row_post mgr nodesz rootitems srr 0 s f L nb H D Hc Hs) as P. unfold post in P.
-  destruct (import_row mgr nodesz rootitems srr 0 s) as [[root| |] s1]; [| |contradiction].
-  2:{ destruct P as (nb' & _ & H'). exists nb'. exact H'. }
-  destruct P as [Er H1]. subst root.
-  set (f' := fun l => inrng nb 0 rootitems l || f l) in *.
-  set (L' := (nb, (mgr, nodesz)) :: L) in *.
-  assert (D1 : dlist L' (nb + 1)) by (apply dlist_cons; exact D).
-  assert (Hcl' : forall l, nb + 1 <= fst l -> f' l = false).
-  { intros l Hl. unfold f'. rewrite (Hcl l) by lia. rewrite orb_false_r. apply inrng_other_region. lia. }
-  assert (Hsc' : forall x, 0 <= x -> f' (src, x) = true) by (intros x Hx; unfold f'; rewrite (Hsc x Hx); apply orb_true_r).
-  pose proof (fill_loop_spec mgr nodesz leafitems false false f' L' (nb + 1) src src Hcl' Hsc' Hsc' nch 0 [] s1 (nb + 1)
-                (Z.le_refl 0) (rows_inv_nil mgr nodesz leafitems false f' L' (nb + 1) s1 (nb + 1) H1 D1 (Z.le_refl _))) as F.
-  destruct (fill_loop mgr nodesz leafitems false false src src 0 nch [] s1) as [[kids o] s2].
-  destruct o as [u| |]; [| |contradiction]; destruct F as [nb2 I2].
-  - split; [reflexivity|]. exists nb2. exact I2.
-  - fold (post (catch_rethrow (@throw (Z * list Z))
-                  (drop_rows mgr nodesz leafitems false kids ;;; drop_unlinked mgr nodesz rootitems nb)) s2
-           (fun rk s' => fst rk = nb /\ exists nb', rows_inv mgr nodesz leafitems false f' L' (nb + 1) (snd rk) s' nb')
-           (fun s' => exists nb', st_is s' f L nb')).
-    apply post_catch. apply post_throw. apply post_bind.
-    eapply post_conseq; [apply (drop_rows_post mgr nodesz leafitems false f' L' (nb + 1) Hcl' kids s2 nb2 I2)| |intros ? []].
-    intros u1 s3 (A & Dd & _). simpl app in A, Dd.
-    eapply post_conseq; [apply (drop_post mgr nodesz rootitems (drop_unlinked mgr nodesz rootitems) nb s3 f L nb2 eq_refl A Dd Hc)| |intros ? []].
-    intros u2 s4 H4. exists nb2. exact H4.
-Qed.
-
-(* TreeSet(const TreeSet&, MemManager) on a two-level tree, as it is after 806b9fe, with the destructor that follows:
-   a failure at ANY node (root or any child, at any item) releases everything built so far exactly once *)
-Theorem ts2_copy_then_destroy_post srr src nch s f bs :
-  rows_world s f bs srr src ->
-  post (ts2_copy_then_destroy mgr nodesz parsz crewsz rootitems leafitems true srr src nch) s
-       (fun _ s' => st_is s' f bs (nextb s')) (fun s' => st_is s' f bs (nextb s')).
-Proof.
-  intros (H & D & Hcl & Hsr & Hsc). unfold ts2_copy_then_destroy. set (nb := nextb s) in *. apply post_bind.
-  eapply post_conseq; [apply (p_alloc_post mgr crewsz s f bs nb H)| |].
-  2:{ intros s' (A & B & C). rewrite C. repeat split; auto. }
-  intros crew s0 [Ec S0]. subst crew.
-  assert (D0 : dlist ((nb, (mgr, crewsz)) :: bs) (nb + 1)) by (apply dlist_cons; exact D).
-  assert (Rel : forall s2 nb2, st_is s2 f ((nb, (mgr, crewsz)) :: bs) nb2 ->
-            post (p_dealloc mgr nb crewsz) s2 (fun _ s3 => st_is s3 f bs (nextb s3)) (fun s3 => st_is s3 f bs (nextb s3))).
-  { intros s2 nb2 H2. eapply post_conseq; [apply (p_dealloc_post mgr nb crewsz s2 _ _ _ H2)| |intros ? []].
-    - simpl. rewrite Z.eqb_refl. reflexivity.
-    - intros u s3 H3. rewrite (remove_head nb (mgr, crewsz) bs (nb + 1) D0) in H3.
-      destruct H3 as (A & B & C). rewrite C. repeat split; auto. }
-  apply post_finally. apply post_bind.
-  eapply post_conseq; [apply (p_alloc_post mgr parsz s0 f _ (nb + 1) S0)| |].
-  2:{ intros s' H'. apply (Rel s' _ H'). }
-  intros par s1 [Ep S1]. subst par.
-  set (L := (nb + 1, (mgr, parsz)) :: (nb, (mgr, crewsz)) :: bs) in *.
-  assert (D1 : dlist L (nb + 1 + 1)) by (apply dlist_cons; exact D0).
-  assert (Hcl1 : forall l, nb + 1 + 1 <= fst l -> f l = false) by (intros l Hl; apply Hcl; lia).
-  (* the params are the newest block of L: releasing them leaves crew :: bs *)
-  assert (RelP : forall s2 nb2, st_is s2 f L nb2 -> nb + 1 < nb2 ->
-            post (p_dealloc mgr (nb + 1) parsz) s2 (fun _ s3 => st_is s3 f ((nb, (mgr, crewsz)) :: bs) nb2) (fun _ => False)).
-  { intros s2 nb2 H2 Hlt. eapply post_conseq; [apply (p_dealloc_post mgr (nb + 1) parsz s2 _ _ _ H2)| |auto].
-    - simpl. rewrite Z.eqb_refl. reflexivity.
-    - intros u s3 H3. unfold L in H3. rewrite (remove_head (nb + 1) (mgr, parsz) _ (nb + 1 + 1) D1) in H3. exact H3. }
-  assert (Body : post (ts2_body mgr nodesz parsz rootitems leafitems true (nb + 1) srr src nch) s1
-                   (fun _ s' => exists nb', st_is s' f ((nb, (mgr, crewsz)) :: bs) nb')
-                   (fun s' => exists nb', st_is s' f ((nb, (mgr, crewsz)) :: bs) nb')).
-  { unfold ts2_body, post.
-    pose proof (pv_copy2_post srr src nch s1 f L (nb + 1 + 1) S1 D1 Hcl1 Hsr Hsc) as P. unfold post in P.
-    destruct (pv_copy2 mgr nodesz rootitems leafitems srr src nch s1) as [[[root kids]| |] s2]; [| |contradiction].
-    - destruct P as [Er (nb2 & I2)]. cbn [fst snd] in Er, I2. subst root.
-      set (r := nb + 1 + 1) in *.
-      set (f' := fun l => inrng r 0 rootitems l || f l) in *.
-      assert (Hcl' : forall l, r + 1 <= fst l -> f' l = false).
-      { intros l Hl. unfold f'. rewrite (Hcl1 l) by lia. rewrite orb_false_r. apply inrng_other_region. lia. }
-      assert (Q : post (drop_rows mgr nodesz leafitems false kids ;;; drop_unlinked mgr nodesz rootitems r ;;; p_dealloc mgr (nb + 1) parsz) s2
-                    (fun _ s' => exists nb', st_is s' f ((nb, (mgr, crewsz)) :: bs) nb') (fun _ => False)).
-      { apply post_bind.
-        eapply post_conseq; [apply (drop_rows_post mgr nodesz leafitems false f' _ (r + 1) Hcl' kids s2 nb2 I2)| |auto].
-        intros u1 s3 (A & Dd & _ & Hge). simpl app in A, Dd. apply post_bind.
-        assert (Hc : forall l, fst l = r -> f l = false) by (intros l E; apply Hcl1; lia).
-        eapply post_conseq; [apply (drop_post mgr nodesz rootitems (drop_unlinked mgr nodesz rootitems) r s3 f L nb2 eq_refl A Dd Hc)| |auto].
-        intros u2 s4 H4.
-        eapply post_conseq; [apply (RelP s4 nb2 H4)| |auto]; [unfold r in Hge; lia|].
-        intros u3 s5 H5. exists nb2. exact H5. }
-      unfold post in Q.
-      destruct ((drop_rows mgr nodesz leafitems false kids;;; drop_unlinked mgr nodesz rootitems r;;; p_dealloc mgr (nb + 1) parsz) s2)
-        as [[u| |] s3]; try contradiction; exact Q.
-    - destruct P as [nb2 H2].
-      assert (Q : post (p_dealloc mgr (nb + 1) parsz ;;; ret tt) s2
-                    (fun _ s' => exists nb', st_is s' f ((nb, (mgr, crewsz)) :: bs) nb') (fun _ => False)).
-      { apply post_bind.
-        assert (Hlt : nb + 1 < nb2 \/ nb2 <= nb + 1) by lia.
-        pose proof (p_dealloc_post mgr (nb + 1) parsz s2 f L nb2 H2) as Pd.
-        eapply post_conseq; [apply Pd| |auto].
-        - simpl. rewrite Z.eqb_refl. reflexivity.
-        - intros u s3 H3. apply post_ret. unfold L in H3. rewrite (remove_head (nb + 1) (mgr, parsz) _ (nb + 1 + 1) D1) in H3.
-          exists nb2. exact H3. }
-      unfold post in Q.
-      destruct ((p_dealloc mgr (nb + 1) parsz;;; ret tt) s2) as [[u| |] s3]; try contradiction; exact Q. }
-  eapply post_conseq; [exact Body| |].
-  - intros u s2 [nb2 H2]. apply (Rel s2 nb2 H2).
-  - intros s2 [nb2 H2]. apply (Rel s2 nb2 H2).
-Qed.
-
-End TreeCopy2Proofs.
-
-Theorem ts2_copy_any_schedule mgr nodesz parsz crewsz rootitems leafitems nch sch :
-  post (ts2_copy_then_destroy mgr nodesz parsz crewsz rootitems leafitems true (-1) (-2) nch) (rows_init sch)
-       (fun _ s' => back_to_start s') (fun s' => back_to_start s').
-Proof.
-  eapply post_conseq;
-    [apply (ts2_copy_then_destroy_post mgr nodesz parsz crewsz rootitems leafitems (-1) (-2) nch _ _ _ (rows_init_world sch))| |].
-  - intros u s' (A & B & _). split; [exact B|exact A].
-  - intros s' (A & B & _). split; [exact B|exact A].
-Qed.
-
-(* the pre-806b9fe shape on the two-level tree: a failure in the second child, then the destructor frees the params again *)
-Theorem ts2_double_destroy_refuted :
-  exists (nch : nat) (sch : list bool),
-    is_stuck (ts2_copy_then_destroy 1 96 168 24 2 2 false (-1) (-2) nch (rows_init sch)) = true /\
-    is_stuck (ts2_copy_then_destroy 1 96 168 24 2 2 true (-1) (-2) nch (rows_init sch)) = false.
-Proof. exists 3%nat, [false; false; false; false; false; false; false; false; false; true]. split; vm_compute; reflexivity. Qed.
